@@ -15,7 +15,10 @@ Model: `GoLevel.CacheM` (`Model/Cache.lean`), the interleaving system `sysStep` 
 the system is *guarded*: `Close` takes `r.mu` only while no thread sits between the decrement that brought a
 counter to zero in `Node.unRefExternal` and the `RLock` that follows it.  `close_race_*` below show that the
 finalisation properties are false without that hypothesis (a defect of the code: `unRefExternal` decides
-"I am the last one" before it synchronises with `Close`).  `lru_capacity` and the first part of
+"I am the last one" before it synchronises with `Close`; `close_race_finalises_under_handle` is reproduced on the
+implementation by `checks/c17conc.go:c17FinaliseUnderHandle`).  The delFunc part no longer needs it: the model
+carries the version of `mBucket.delete` as configuration (`Shared.clearDel`, `Gen.cacheDeleteClearsDelFuncs`), and
+with the repaired one no delFunc runs twice in any reachable state (`delfunc_at_most_once`).  `lru_capacity` and the first part of
 `unique_live_value` hold for the unguarded system as well.
 
 `Node.callFinalizer` is one atomic step: the repaired code ("make Node.callFinalizer safe against a concurrent second
@@ -138,12 +141,12 @@ open and the node is on the LRU list.  So a value whose handles have all been re
 cache (evicted, deleted, or the cache closed — after `Close` nothing is on the LRU list) has been finalised
 exactly once; after `Close(true)` every value has.
 
-(2) in the guarded system (more generally: as long as no `callFinalizer` went through a stale pointer, `stale`)
-no delFunc ran twice; and, guarded or not, every delFunc handed to `Cache.Delete` so far (they are numbered in
+(2) with the repaired `mBucket.delete` (`clearDel = true`, the code as it is: `code_delete_clears_delFuncs`) no
+delFunc ran twice, guarded or not — `delfunc_at_most_once` states it for every reachable state; before that repair
+this needed the guard (`close_race_delfunc_twice`); and, guarded or not, every delFunc handed to `Cache.Delete` so far (they are numbered in
 call order, `d < nextDel`) has run, or is still attached to a retained node, or was handed to a `Delete` that
 found the cache closed (`dropped`; the code then returns `false` and never calls it — contrary to the comment on
-`Delete`, reported).  So the delFuncs of a node that was deleted have all run exactly once.  Without the guard
-"at most once" is FALSE for delFuncs: `close_race_delfunc_twice` (reproduced on the implementation).
+`Delete`, reported).  So the delFuncs of a node that was deleted have all run exactly once.
 
 (3) after `Close` nothing is left on the LRU list. -/
 theorem finalise_exactly_once {g : Bool} {s : Sys} (hr : Reachable g s) (hq : Quiescent s) :
@@ -151,16 +154,17 @@ theorem finalise_exactly_once {g : Bool} {s : Sys} (hr : Reachable g s) (hq : Qu
       ∀ id v, Ev.ctor id v ∈ s.log →
         (v ∈ s.log.filterMap finVal ∧ ∀ n ∈ s.sh.nodes, n.value ≠ some v) ∨
         (v ∉ s.log.filterMap finVal ∧ ∃ n ∈ s.sh.nodes, n.value = some v ∧ Retained s n)) ∧
-    (((g = true ∨ s.sh.stale = false) → (s.log.filterMap delId).Nodup) ∧
+    (((g = true ∨ s.sh.clearDel = true ∨ s.sh.stale = false) → (s.log.filterMap delId).Nodup) ∧
       ∀ d, d < s.sh.nextDel →
         d ∈ s.log.filterMap delId ∨ (∃ n ∈ s.sh.nodes, d ∈ n.delFuncs ∧ Retained s n) ∨ d ∈ s.sh.dropped) ∧
     (s.sh.closed = true → s.sh.lru.recent = []) := by
   have hlog := logOK_reachable hr
   have hQ := (invS_reachable hr).core
   have hv := List.nodup_append.mp hlog.vals.1
-  have hst : (g = true ∨ s.sh.stale = false) → s.sh.stale = false := by
-    rintro (rfl | h)
+  have hst : (g = true ∨ s.sh.clearDel = true ∨ s.sh.stale = false) → s.sh.stale = false := by
+    rintro (rfl | h | h)
     · exact guarded_not_stale hr
+    · exact repaired_not_stale hr h
     · exact h
   refine ⟨⟨hv.1, fun id v hc => ?_⟩,
     ⟨fun hg => (List.nodup_append.mp (List.nodup_append.mp (hlog.dels (hst hg)).1).1).1, fun d hd => ?_⟩,
@@ -202,12 +206,12 @@ theorem finalise_exactly_once_partial {g : Bool} {s : Sys} (hr : Reachable g s) 
     ∀ v ∈ s.log.filterMap finVal ++ s.sh.nodes.filterMap (·.value), v < s.sh.nextVal :=
   (logOK_reachable hr).vals.2
 
-/-- **del_after_last_handle.**  (1) In the guarded system (or as long as no `callFinalizer` went through a stale
-pointer) no delFunc runs twice — false without the guard, see `close_race_delfunc_twice`; (2) (guarded or before `Close`, not force-closed) a
+/-- **del_after_last_handle.**  (1) With the repaired `mBucket.delete` (`clearDel = true`), or in the guarded
+system, no delFunc runs twice — false for the unguarded system before that repair, `close_race_delfunc_twice`; (2) (guarded or before `Close`, not force-closed) a
 delFunc attached to a node only runs in a state with no outstanding handle to that node; (3) when `Delete`
 finds no node, its next two actions are the delFunc itself and the return. -/
 theorem del_after_last_handle {g : Bool} {s : Sys} (hr : Reachable g s) :
-    ((g = true ∨ s.sh.stale = false) → (s.log.filterMap delId).Nodup) ∧
+    ((g = true ∨ s.sh.clearDel = true ∨ s.sh.stale = false) → (s.log.filterMap delId).Nodup) ∧
     (∀ a s', sysStep g s a = some s' → s.sh.forced = false → (g = true ∨ s.sh.closed = false) →
       ∀ d id f, Ev.delf d (some id) f ∈ emitted s a → outstanding s id = 0) ∧
     (∀ (sh : Shared) k d, sh.closed = false → findKey sh.nodes k = none →
@@ -215,9 +219,10 @@ theorem del_after_last_handle {g : Bool} {s : Sys} (hr : Reachable g s) :
       exec sh (.runDel d) = some (sh, [], [.delf d none false])) := by
   have hinv := inv_reachable hr
   have hlog := logOK_reachable hr
-  have hst : (g = true ∨ s.sh.stale = false) → s.sh.stale = false := by
-    rintro (rfl | h)
+  have hst : (g = true ∨ s.sh.clearDel = true ∨ s.sh.stale = false) → s.sh.stale = false := by
+    rintro (rfl | h | h)
     · exact guarded_not_stale hr
+    · exact repaired_not_stale hr h
     · exact h
   refine ⟨fun hg => (List.nodup_append.mp (List.nodup_append.mp (hlog.dels (hst hg)).1).1).1, ?_, ?_⟩
   · intro a s' hs hf hg d id f hev
@@ -299,7 +304,7 @@ theorem close_race_finalises_under_handle :
     simp only [Option.map_some, Option.some.injEq, finUnderHandle, Bool.and_eq_true, Bool.not_eq_true',
       List.any_eq_true] at h
     obtain ⟨⟨hf, hstep⟩, e, he, hout⟩ := h
-    refine ⟨s, .step 0, reachable_of_runSched (Reachable.init 0 3) hs, hf, hstep, ?_⟩
+    refine ⟨s, .step 0, reachable_of_runSched (Reachable.init _ 0 3) hs, hf, hstep, ?_⟩
     cases e <;> simp at hout
     exact ⟨_, _, _, he, hout⟩
 
@@ -307,8 +312,9 @@ theorem close_race_finalises_under_handle :
 example : runSched true (Sys.init 0 3) raceSched = none := by decide
 
 /-- Thread 0 as before; thread 1 gets the key again and releases it, which removes the node from its bucket;
-thread 2 closes; thread 0 then calls `callFinalizer` on the removed node (its delFuncs, which `mBucket.delete`
-already ran and did not clear, run a second time: `close_race_delfunc_twice`; the model also flags `bug`). -/
+thread 2 closes; thread 0 then calls `callFinalizer` on the removed node (harmless since `mBucket.delete` takes the
+delFuncs out of the node; before that repair they ran a second time: `close_race_delfunc_twice`).  The model flags
+the stale pointer as `bug`. -/
 def staleSched : List Act :=
   [ .call 0 (.get (0, 1) (.val 1)), .step 0, .step 0, .step 0, .step 0, .step 0, .step 0,
     .call 0 (.release 0), .step 0, .step 0,
@@ -325,7 +331,7 @@ theorem close_race_stale_finaliser :
   | none => rw [hs] at h; cases h
   | some s =>
     rw [hs] at h
-    exact ⟨s, reachable_of_runSched (Reachable.init 0 3) hs, by simpa using h⟩
+    exact ⟨s, reachable_of_runSched (Reachable.init _ 0 3) hs, by simpa using h⟩
 
 /-- As `staleSched`, with a delFunc: thread 0 `Get`s key (0,1), `Delete`s it with delFunc 0 (deferred: the handle
 is outstanding) and releases the handle — the counter drops to zero and the thread stalls in `unRefExternal`
@@ -342,26 +348,51 @@ def delTwiceSched : List Act :=
   [ .call 2 (.close false), .step 2 ] ++
   [ .step 0, .step 0, .step 0 ]
 
-/-- **close_race_delfunc_twice** — the negation of "exactly once" for delFuncs in the UNGUARDED system: a reachable
-quiescent state whose history contains delFunc 0 twice (and the value's `Release` once).  This is a defect of
-the code (`unRefExternal` decides "I am the last one" before it synchronises with `Close`, and `mBucket.delete`
-leaves `n.delFuncs` in place); the interleaving was replayed on the implementation by a stress of exactly these
-three threads: 75 of 1.85 million trials ran the delFunc twice (`checks/c17conc.go:c17StaleFinalizer`). -/
+/-- **close_race_delfunc_twice** — RECORD OF A REPAIRED DEFECT (D30).  With `mBucket.delete` as it was before the
+repair (`clearDel = false`: it ran `n.delFuncs` and left them in the node) the unguarded system reaches a
+quiescent state whose history contains delFunc 0 twice (and the value's `Release` once): `unRefExternal` decides
+"I am the last one" before it synchronises with `Close`, and the later `callFinalizer` on the removed node finds the
+delFuncs still there.  The interleaving was replayed on the implementation by a stress of exactly these three
+threads (75 of 1.85 million trials; `checks/c17conc.go:c17StaleFinalizer`, now part of the C17 run as a regression
+detector). -/
 theorem close_race_delfunc_twice :
-    ∃ s, Reachable false s ∧ Quiescent s ∧ ¬ (s.log.filterMap delId).Nodup ∧
+    ∃ s, Reachable false s ∧ s.sh.clearDel = false ∧ Quiescent s ∧ ¬ (s.log.filterMap delId).Nodup ∧
       s.log.filterMap delId = [0, 0] ∧ s.log.filterMap finVal = [0] := by
-  have h : (runSched false (Sys.init 0 3) delTwiceSched).map
+  have h : (runSched false (Sys.initCfg false 0 3) delTwiceSched).map
       (fun s => (pending s, s.log.filterMap delId, s.log.filterMap finVal)) = some ([], [0, 0], [0]) := by decide
-  cases hs : runSched false (Sys.init 0 3) delTwiceSched with
+  cases hs : runSched false (Sys.initCfg false 0 3) delTwiceSched with
   | none => rw [hs] at h; cases h
   | some s =>
     rw [hs] at h
     simp only [Option.map_some, Option.some.injEq, Prod.mk.injEq] at h
-    refine ⟨s, reachable_of_runSched (Reachable.init 0 3) hs, h.1, ?_, h.2.1, h.2.2⟩
-    rw [h.2.1]; decide
+    refine ⟨s, reachable_of_runSched (Reachable.init false 0 3) hs, ?_, h.1, ?_, h.2.1, h.2.2⟩
+    · rw [clearDel_runSched hs]; rfl
+    · rw [h.2.1]; decide
+
+/-- The same interleaving with the repaired `mBucket.delete`: the stale `callFinalizer` finds no delFuncs, delFunc 0
+runs once. -/
+example :
+    (runSched false (Sys.initCfg true 0 3) delTwiceSched).map
+      (fun s => (pending s, s.log.filterMap delId, s.log.filterMap finVal)) = some ([], [0], [0]) := by decide
+
+/-- **code_delete_clears_delFuncs** — the configuration of the model is the code's: `tools/extract` finds, in
+`mBucket.delete`, `delFuncs := n.delFuncs; n.delFuncs = nil` between `n.mu.Lock()` and `n.mu.Unlock()` before the
+loop that calls them (and no `range n.delFuncs`).  `Shared.new` / `Sys.init` use this flag. -/
+theorem code_delete_clears_delFuncs : Gen.cacheDeleteClearsDelFuncs = true := by decide
+
+/-- **delfunc_at_most_once** — with the repaired `mBucket.delete` no delFunc runs twice in ANY reachable state,
+guarded or not, quiescent or not; in particular in every state reached from `Sys.init` (the code as extracted). -/
+theorem delfunc_at_most_once {g : Bool} {s : Sys} (hr : Reachable g s) (hc : s.sh.clearDel = true) :
+    (s.log.filterMap delId).Nodup :=
+  (del_after_last_handle hr).1 (Or.inr (Or.inl hc))
+
+theorem delfunc_at_most_once_code {g : Bool} {c n : Nat} {sched : List Act} {s : Sys}
+    (h : runSched g (Sys.init c n) sched = some s) : (s.log.filterMap delId).Nodup :=
+  delfunc_at_most_once (reachable_of_runSched (Reachable.init _ c n) h)
+    (by rw [clearDel_runSched h]; exact code_delete_clears_delFuncs)
 
 /-- The guarded system does not allow that schedule either. -/
-example : runSched true (Sys.init 0 3) delTwiceSched = none := by decide
+example : runSched true (Sys.initCfg false 0 3) delTwiceSched = none := by decide
 
 /-! ## `callFinalizer`: before and after the repair
 
@@ -597,7 +628,8 @@ def theorems : List String :=
    "GoLevel.C17.forced_close_finalises_all", "GoLevel.C17.finalise_exactly_once_partial",
    "GoLevel.C17.del_after_last_handle", "GoLevel.C17.lru_capacity", "GoLevel.C17.ref_is_count",
    "GoLevel.C17.close_race_finalises_under_handle", "GoLevel.C17.close_race_stale_finaliser",
-   "GoLevel.C17.close_race_delfunc_twice", "GoLevel.C17.no_deadlock",
+   "GoLevel.C17.close_race_delfunc_twice", "GoLevel.C17.code_delete_clears_delFuncs",
+   "GoLevel.C17.delfunc_at_most_once", "GoLevel.C17.delfunc_at_most_once_code", "GoLevel.C17.no_deadlock",
    "GoLevel.C17.callFinalizer_race", "GoLevel.C17.callFinalizer_repaired",
    "GoLevel.C17.table_refines_map", "GoLevel.C17.table_buckets"]
 
